@@ -349,3 +349,67 @@ Proof.
   rewrite !cost_soft_clauses in Hle by (try lia; assumption).
   now apply maxsat_within_quant.
 Qed.
+
+(* ------------------------------------------------------------------ the clamp of ln 0 *)
+Lemma wt_clamped : forall w, (w <= - (10000 # 1))%Q -> (- wt w)%Z = clamped_cost.
+Proof.
+  intros w H. unfold wt.
+  assert (L : Qle_bool w (-10000 # 1)%Q = true) by (apply Qle_bool_iff; exact H).
+  rewrite L. reflexivity.
+Qed.
+
+Lemma qcost_nonneg : forall A lw a, weights_nonpos lw -> 0 <= qcost A a lw.
+Proof.
+  intros A lw. induction lw as [|[wp wn] lw IH]; intros a Hw; cbn [qcost]; [lia|].
+  destruct (Hw (wp, wn) (or_introl eq_refl)) as [Hp Hn]. cbn [fst snd] in *.
+  assert (IH' : 0 <= qcost A (a + 1) lw) by (apply IH; intros pw H; apply Hw; now right).
+  pose proof (wt_nonneg wp Hp). pose proof (wt_nonneg wn Hn). destruct (A a); lia.
+Qed.
+
+Lemma qcost_ge_clamped : forall A lw a, weights_nonpos lw ->
+    uses_clamped A a lw = true -> clamped_cost <= qcost A a lw.
+Proof.
+  intros A lw. induction lw as [|[wp wn] lw IH]; intros a Hw Hu; cbn [uses_clamped qcost] in *; [discriminate|].
+  destruct (Hw (wp, wn) (or_introl eq_refl)) as [Hp Hn]. cbn [fst snd] in *.
+  assert (Hw' : weights_nonpos lw) by (intros pw H; apply Hw; now right).
+  pose proof (qcost_nonneg A lw (a + 1) Hw') as Hq.
+  apply orb_true_iff in Hu. destruct Hu as [Hu|Hu].
+  - apply Qle_bool_iff in Hu. destruct (A a).
+    + rewrite (wt_clamped wp Hu). lia.
+    + rewrite (wt_clamped wn Hu). lia.
+  - specialize (IH (a + 1) Hw' Hu). pose proof (wt_nonneg wp Hp). pose proof (wt_nonneg wn Hn).
+    destruct (A a); lia.
+Qed.
+
+Lemma qcost_upper_unclamped : forall A lw a, weights_nonpos lw ->
+    uses_clamped A a lw = false ->
+    (inject_Z (qcost A a lw) <= - (logprob A a lw * (10000 # 1)))%Q.
+Proof.
+  intros A lw. induction lw as [|[wp wn] lw IH]; intros a Hw Hu; cbn [uses_clamped qcost logprob] in *.
+  - unfold Qle. cbn. lia.
+  - destruct (Hw (wp, wn) (or_introl eq_refl)) as [Hp Hn]. cbn [fst snd] in *.
+    assert (Hw' : weights_nonpos lw) by (intros pw H; apply Hw; now right).
+    apply orb_false_iff in Hu. destruct Hu as [Hc Hu]. specialize (IH (a + 1) Hw' Hu).
+    assert (Hlt : forall w, Qle_bool w (-10000 # 1) = false -> (- (10000 # 1) <= w)%Q).
+    { intros w E. apply Qlt_le_weak. apply Qnot_le_lt. intro L. change (- (10000 # 1))%Q with (-10000 # 1)%Q in L. apply Qle_bool_iff in L. rewrite L in E. discriminate. }
+    rewrite inject_Z_plus. destruct (A a).
+    + destruct (floor_bracket wp (Hlt _ Hc) Hp) as [F1 _]. lra.
+    + destruct (floor_bracket wn (Hlt _ Hc) Hn) as [F1 _]. lra.
+Qed.
+
+(* An assignment that uses a probability-0 literal is strictly more expensive than every
+   assignment that uses none and whose probability exceeds e^-10000. *)
+Lemma clamped_loses : forall A B lw,
+    weights_nonpos lw ->
+    uses_clamped A 1 lw = true -> uses_clamped B 1 lw = false ->
+    (- (10000 # 1) < logprob B 1 lw)%Q ->
+    qcost B 1 lw < qcost A 1 lw.
+Proof.
+  intros A B lw Hw HA HB Hl.
+  pose proof (qcost_ge_clamped A lw 1 Hw HA) as H1.
+  pose proof (qcost_upper_unclamped B lw 1 Hw HB) as H2.
+  assert (H3 : (inject_Z (qcost B 1 lw) < inject_Z clamped_cost)%Q).
+  { apply Qle_lt_trans with (- (logprob B 1 lw * (10000 # 1)))%Q; [exact H2|].
+    change (inject_Z clamped_cost) with (100000000 # 1)%Q. lra. }
+  rewrite <- Zlt_Qlt in H3. lia.
+Qed.
